@@ -90,6 +90,12 @@ class C14(Check):
                     for cls in ("A", "P"):
                         for v in T_VARIANTS if n <= 4 else ("el", "ac"):
                             out.append(("T", n, code, r, cls, v, "full"))
+        if quick:
+            # every rooted tree on 5 vertices as a point tree: construction, tree relations and every mask (no path
+            # queries) - masks of trees whose root is not vertex 0 need 5 vertices to show re-indexing errors
+            for code in range(5 ** 3):
+                for r in range(5):
+                    out.append(("T", 5, code, r, "P", "el", "lite"))
         # the family roots are the expensive ones (seconds each): spread them evenly through the list so that
         # the contiguous chunks handed to the worker processes each get a few of them
         fam = self._family_roots()
